@@ -110,6 +110,29 @@ def r2_terminal_state(cx):
           "the loop `while decoded < total_size` must also end when the decoder yields no more bytes (a truncated stream otherwise spins forever / readers never wake)")
 
 
+def r2b_every_publisher_notifies_on_error(cx):
+    """generalisation of R2 to the whole reader: a function that wakes waiters of a Condvar when it succeeds must wake
+    them on its error exits too -- a damaged block otherwise leaves the other readers (or the next call) blocked for ever
+    instead of getting the error"""
+    F = cx.F
+    reach, roots = _reader_reach(F)
+    n = 0
+    for x in sorted(y for y in reach if isinstance(y, int)):
+        f = F.fns[x]
+        if "blocks" not in f or "creator::" in f["name"] or x in F.absorbed or f["name"].endswith("compression::decode_to_end"):
+            continue      # decode_to_end is R2 itself
+        b = F.body(f)
+        notif = {i for i, t in b.calls(r"Condvar::notify_(all|one)$")}
+        if not notif:
+            continue
+        n += 1
+        err = b.error_blocks() | b.err_return_blocks()
+        bad = sorted(b.ln(e) for e in err if not (notif & b.reachable(e)))
+        cx.ob("R2", "R2/error-exit-publishes@%s" % re.sub(r"\{closure#\d+\}", "{closure}", f["name"]), not bad, f,
+              "error exits of a reader function that notifies a Condvar on success must notify too (exits that wake nobody: lines %s)" % bad)
+    cx.ob("R2", "R2/publishers-scanned", True, "(reader-reachable functions)", "%d reader-reachable functions besides decode_to_end notify a Condvar" % n, trivial=True)
+
+
 ACCESS = (r"core::slice::index::<impl .*Index(Mut)?<.*> for \[.*\]>::index(_mut)?$", r"SliceIndex<\[.*\]>>::index(_mut)?$", r"copy_from_slice$", r"slice::from_raw_parts", r"MmapOptions::map$",
           r"Read>::read_to_end$")
 LENLIKE = (r"::len$", r"Source>::size$", r"::size$", r"total_size$", r"is_valid$")
@@ -461,6 +484,7 @@ def _sig(b, op):
 RULES = [
     ("R1", r1_pool_task, 2),
     ("R2", r2_terminal_state, 2),
+    ("R2", r2b_every_publisher_notifies_on_error, 1),
     ("R3", r3_bounds_matrix, 15),
     ("R3", r3b_crc_check_is_panic_free, 1),
     ("R4", r4_debug_only_guards, 6),
